@@ -81,6 +81,9 @@ type Spelling struct {
 	ByteAlias  bool   `json:"ba,omitempty"` // "byte" instead of "i8"
 	PkgQual    bool   `json:"pq,omitempty"` // pkg.Name for named structs/enums
 	Spaces     uint8  `json:"sp,omitempty"` // bitmask of where spaces are inserted
+	// Other: tags of other packages around the frugal/thrift tag (conventional struct tag syntax,
+	// values may contain escaped quotes and backslashes): 0 none, 1..4 see otherTags
+	Other uint8 `json:"ot,omitempty"`
 }
 
 // FieldSpec is one tagged field.
